@@ -1823,9 +1823,12 @@ def replay(pid, path):
         print("CMD  ", c[:300])
         print("IMPL ", a[:600])
         print("MODEL", b[:600])
-        d = diff_lines(a, b, None)
+        # `e` (the decoder's error value), `alt` and `glue` are reported by the implementation only
+        d = diff_lines(a, b, None, skip={"e", "alt", "glue"})
         if d:
             print("DIFF ", [(x[0], str(x[1])[:80], str(x[2])[:80]) for x in d])
+    if r.get("monitor_clause"):
+        print("MONITOR clause of the original report:", r["monitor_clause"])
     return 0
 
 
